@@ -172,6 +172,9 @@ impl NumOps for i64 {}
 impl FromPrimitive for i64 {
     open spec fn from_usize_spec(n: usize) -> Option<i64> { if n <= 0x7fff_ffff { Some(n as i64) } else { None } }
     fn from_usize(n: usize) -> (r: Option<i64>) { if n <= 0x7fff_ffff { Some(n as i64) } else { None } }
+    uninterp spec fn from_f64_spec(x: f64) -> Option<i64>;
+    #[verifier::external_body]
+    fn from_f64(x: f64) -> (r: Option<i64>) { unimplemented!() }
 }
 pub proof fn lemma_hypotheses_satisfiable()
     ensures ({
